@@ -576,16 +576,17 @@ func (c *genctx) injectOffence(plans []*reqPlan, sc *scenario) {
 	case "cl-nonnumeric":
 		p.fields = append(p.fields, [2]string{"content-length", "12a"})
 	case "cl-overflow":
-		if p.body == nil {
-			p.body = [][]byte{r.bytes(5)}
-		}
+		// the body has the length the declared value wraps to in 64 bits (5) or, cut short, reads as (2)
+		k := c.r.intn(6)
+		p.body = [][]byte{r.bytes([]int{5, 0, 1, 2, 9, 5}[k])}
 		var fs [][2]string
 		for _, kv := range p.fields {
 			if kv[0] != "content-length" {
 				fs = append(fs, kv)
 			}
 		}
-		p.fields = append(fs, [2]string{"content-length", "18446744073709551621"})
+		// values around 2^63 and 2^64: an int that wraps could land on the real body length
+		p.fields = append(fs, [2]string{"content-length", []string{"18446744073709551621", "9223372036854775808", "9223372036854775809", "92233720368547758082", "9223372036854775817", "99999999999999999999999"}[k]})
 	case "body-too-large":
 		sc.cfg.maxBody = 1500
 		p.body = [][]byte{r.bytes(1000), r.bytes(1000)}
@@ -1076,6 +1077,75 @@ func (c *genctx) genBlockedOnConnWindow() *scenario {
 	return sc
 }
 
+// genRequestTimeout: requests in every stage of their life (header block unfinished, body unfinished, handler
+// running, response blocked on a window) when the server's request timer runs out; afterwards the handlers return,
+// the frames that were still to come arrive for streams that have timed out, and new requests come in.
+func (c *genctx) genRequestTimeout() *scenario {
+	r := c.r
+	var sc *scenario
+	for try := 0; ; try++ {
+		sc = c.genServerScenario(false)
+		if len(sc.evs) >= 4 && len(sc.evs) <= 40 || try > 20 {
+			break
+		}
+	}
+	sc.cfg.reqTimeoutMs = 250
+	evs := sc.evs
+	if n := len(evs); n > 0 && evs[n-1].kind == 'E' {
+		evs = evs[:n-1]
+	}
+	cut := 1 + r.intn(len(evs))
+	if cut > 24 {
+		cut = 24
+	}
+	head, tail := evs[:cut], evs[cut:]
+	out := append([]event(nil), head...)
+	out = append(out, event{kind: 'T'})
+	// what was still to come: late frames for timed-out streams, handlers returning after the timeout
+	for i := range tail {
+		if i >= 12 {
+			break
+		}
+		if r.chance(75) {
+			out = append(out, tail[i])
+		}
+	}
+	out = append(out, event{kind: 'E'})
+	sc.evs = out
+	return sc
+}
+
+// genIdleTimeout: the connection sits idle (with handlers running, responses blocked on a window, or nothing at
+// all going on) until the server's idle timer closes it.
+func (c *genctx) genIdleTimeout() *scenario {
+	r := c.r
+	var sc *scenario
+	for try := 0; ; try++ {
+		sc = c.genServerScenario(false)
+		if len(sc.evs) <= 30 || try > 20 {
+			break
+		}
+	}
+	sc.cfg.idleMs = 250
+	evs := sc.evs
+	if n := len(evs); n > 0 && evs[n-1].kind == 'E' {
+		evs = evs[:n-1]
+	}
+	cut := r.intn(len(evs) + 1)
+	if cut > 20 {
+		cut = 20
+	}
+	out := append([]event(nil), evs[:cut]...)
+	out = append(out, event{kind: 'I'})
+	// what the peer still sends does not reach anybody
+	for i := cut; i < len(evs) && i < cut+3; i++ {
+		out = append(out, evs[i])
+	}
+	out = append(out, event{kind: 'E'})
+	sc.evs = out
+	return sc
+}
+
 func genServer(c *genctx) {
 	n := c.n
 	for i := 0; i < n; i++ {
@@ -1100,6 +1170,12 @@ func genServer(c *genctx) {
 		case i%64 == 29:
 			sc = c.genFloodAfterError()
 			kind = "flood-after-connection-error"
+		case i%32 == 22:
+			sc = c.genRequestTimeout()
+			kind = "request-timer"
+		case i%64 == 46:
+			sc = c.genIdleTimeout()
+			kind = "idle-timer"
 		case i%4 == 1:
 			sc = c.genServerScenario(true)
 			kind = "offence-message"
@@ -1111,6 +1187,13 @@ func genServer(c *genctx) {
 			sc = c.genServerScenario(false)
 		}
 		res := runServerScenario(sc)
+		if sc.void {
+			// depended on real time and the machine was too slow: regenerate as an ordinary scenario
+			c.st.result("void-timer-scenario")
+			sc = c.genServerScenario(false)
+			kind = "good"
+			res = runServerScenario(sc)
+		}
 		line := sc.String() // after the run: D events carry the observed response header lists
 		c.st.size(len(sc.evs))
 		if strings.Contains(res, "HANG") {
